@@ -568,6 +568,17 @@ def b_exec(I, a, k):
     return None
 
 
+def imp_import_module(I, a, k):
+    from . import modules as _M
+    name = a[0]
+    if not isinstance(name, str) or len(a) > 1 or k:
+        raise Unsupported('import_module of a symbolic / relative name')
+    m = _M.load_module(name)
+    if m is None:
+        return ModRef(name)
+    return ('repo', m)
+
+
 def b_sorted(I, a, k):
     items = Mo.concrete_iter(I, a[0])
     key = k.get('key')
@@ -852,6 +863,7 @@ def builtins(I):
     reg('reversed', b_reversed)
     reg('map', b_map)
     reg('open', b_open)
+    reg('eval', lambda I_, a, k: _unsup('eval with explicit namespaces / through an alias'))
     reg('compile', b_compile)
     reg('exec', b_exec)
     reg('sorted', b_sorted)
@@ -1689,6 +1701,7 @@ def lib_lookup(I, dotted):
         'copy.copy': Builtin('copy.copy', copy_copy), 'copy.deepcopy': Builtin('copy.deepcopy', copy_deepcopy),
         'dill.copy': Builtin('dill.copy (assumed: structural copy with fresh references, as copy.deepcopy)', copy_deepcopy),
         'numbers.Integral': TypeTag('Integral'),
+        'importlib.import_module': Builtin('importlib.import_module', imp_import_module),
         'dill.source': ModRef('dill.source'),
         'dill.source.getimport': Builtin('dill.source.getimport (assumed: no import statement is needed for an instance of a builtin sequence type)', dill_getimport),
         'collections.abc.Callable': TypeTag('Callable'),
